@@ -26,8 +26,10 @@ class Loss(Module):
             reduction = loss.sum()
         elif self.reduction == 'mean':
             reduction = loss.mean()
-        else:
+        elif self.reduction is None or self.reduction == 'none':
             reduction = loss 
+        else:
+            raise ValueError(f"'{self.reduction}' is not a valid value for reduction ('mean', 'sum', 'none')")
             
         return reduction
 
